@@ -38,8 +38,10 @@ func (o *ObjectRangeRequest) Range(size int64) (*ObjectRange, error) {
 		start = o.Start
 		end := o.End
 
-		if o.End == RangeNoEnd {
-			// If no end is specified, range extends to end of the file.
+		if o.End == RangeNoEnd || end >= size {
+			// If no end is specified, or it lies beyond the end of the file
+			// (which also keeps end-start+1 from overflowing int64), the
+			// range extends to end of the file.
 			length = size - start
 		} else {
 			length = end - start + 1
